@@ -194,6 +194,10 @@ struct file {
 #define MTIME 0
 #define ATIME 1
 #define CTIME 2
+/* The seconds since 1970 that unix_to_ntfs() turns into a 64-bit count
+ * of 100ns ticks since 1601 without wrapping around. */
+#define NTFS_TIME_MIN	(-ARCHIVE_LITERAL_LL(11644473600))
+#define NTFS_TIME_MAX	ARCHIVE_LITERAL_LL(1833029933769)
 
 	mode_t			 mode;
 	uint32_t		 crc32;
@@ -1633,7 +1637,7 @@ file_new(struct archive_write *a, struct archive_entry *entry,
 	struct file *file;
 	const char *u16;
 	size_t u16len;
-	int ret = ARCHIVE_OK;
+	int ti, ret = ARCHIVE_OK;
 
 	zip = (struct _7zip *)a->format_data;
 	*newfile = NULL;
@@ -1707,6 +1711,21 @@ file_new(struct archive_write *a, struct archive_entry *entry,
 		file->flg |= CTIME_IS_SET;
 		file->times[CTIME].time = archive_entry_ctime(entry);
 		file->times[CTIME].time_ns = archive_entry_ctime_nsec(entry);
+	}
+	/* A time that the 64-bit count of 100ns ticks since 1601 cannot
+	 * hold is left out, with a warning. */
+	for (ti = 0; ti < 3; ti++) {
+		static const int bit[3] = {
+			MTIME_IS_SET, ATIME_IS_SET, CTIME_IS_SET };
+
+		if ((file->flg & bit[ti]) != 0 &&
+		    (file->times[ti].time < NTFS_TIME_MIN ||
+		     file->times[ti].time > NTFS_TIME_MAX)) {
+			file->flg &= ~bit[ti];
+			archive_set_error(&a->archive, ERANGE,
+			    "File time out of range");
+			ret = ARCHIVE_WARN;
+		}
 	}
 
 	*newfile = file;
